@@ -504,6 +504,16 @@ def _rt_nontrivial(spec: dict) -> bool:
     return False
 
 
+def _no_spelling_as_documented(e, tags) -> bool:
+    """A ControlledGate whose controls are not all on |1> has no OpenQASM 2
+    spelling; qasm_name documents a ValueError for it (it used to be printed
+    as the control-on-|1> gate: fixed finding rt_gate_matrix|ctrl_levels)."""
+    return (
+        isinstance(e, ValueError) and 'ctrl_levels' in tags
+        and 'is not a standard OpenQASM 2.0 identifier' in str(e)
+    )
+
+
 def check_rt(case) -> Outcome:
     out = Outcome()
     spec = case['circ']
@@ -516,6 +526,9 @@ def check_rt(case) -> Outcome:
     try:
         text = c.to('qasm')
     except Exception as e:
+        if _no_spelling_as_documented(e, tags):
+            out.label('A:ctrl_levels-no-spelling(documented ValueError)')
+            return out
         out.fail(reject_sig('rt_encode', e), repr(e))
         return out
     try:
@@ -1148,6 +1161,9 @@ def check_tr(case) -> Outcome:
     try:
         text = c.to('qasm')
     except Exception as e:
+        if _no_spelling_as_documented(e, tags):
+            out.label('T:ctrl_levels-no-spelling(documented ValueError)')
+            return out
         out.fail(reject_sig(f'tr_{lib}_encode', e), repr(e))
         return out
     if lib != 'qiskit':
@@ -1285,7 +1301,7 @@ CHECKS = {'rt': check_rt, 'prog': check_prog, 'tr': check_tr}
 def check(case) -> Outcome:
     out = CHECKS[case['k']](case)
     out.label('kind:' + case['k'])
-    if case.get('excl'):
+    if set(case.get('excl') or ()) - OUT_OF_SUBSET:
         out.excluded = 1
     return out
 
@@ -1340,8 +1356,27 @@ SWITCHES = {
 }
 
 
+# Constructs that are NOT part of the subset the property quantifies over
+# ("several registers, user-defined gates with parameter expressions,
+# arithmetic ..., barriers, measurement, reset"): applying a gate to a whole
+# register (broadcast).  BQSKit rejects these programs; they are never
+# generated and the rejection of the dedicated cases is only labelled.
+# ControlledGates with non-standard control levels have no OpenQASM 2
+# spelling (documented ValueError), so they are not in domain A either.
+OUT_OF_SUBSET = frozenset({'broadcast', 'U_broadcast', 'CX_broadcast',
+                           'ctrl_levels'})
+OUT_OF_SUBSET_SIGS = frozenset(
+    s for t in ('broadcast', 'U_broadcast', 'CX_broadcast')
+    for s in (
+        'b_reject|qubit_count',
+        'b_reject|IndexError|visitor.py:ugate|list index out of range',
+        'b_reject|IndexError|visitor.py:cxgate|list index out of range',
+    )
+)
+
+
 def exclusions(ctx: core.Ctx) -> frozenset:
-    ex = set()
+    ex = set(OUT_OF_SUBSET)
     for tag, sigs in SWITCHES.items():
         if any(ctx.is_known(s) for s in sigs):
             ex.add(tag)
@@ -2203,6 +2238,10 @@ def run_shard(ctx: core.Ctx) -> core.ShardResult:
     for i, case in enumerate(dedicated_cases()):
         out = check(case)
         out.label('dedicated')
+        if any(v.sig in OUT_OF_SUBSET_SIGS for v in out.violations):
+            out.label('dedicated:out-of-subset-program-rejected')
+            out.violations = [v for v in out.violations
+                              if v.sig not in OUT_OF_SUBSET_SIGS]
         ded_sigs.update(v.sig for v in out.violations)
         if i % ctx.nshards == ctx.shard:
             res.record(case, out)
